@@ -345,7 +345,11 @@ func runCheck(o *CheckOpts) int {
 		}
 		if !confirmed && ob != nil {
 			// counterexample search on the real code with the property's executable oracles
-			oracles := prog.oraclesFor(o.Prop, ob.Func)
+			okey := ob.Func
+			if okey == "" {
+				okey = name // structural obligations have no function: oracles name them in `covers`
+			}
+			oracles := prog.oraclesFor(o.Prop, okey)
 			if len(oracles) > 0 {
 				var names []string
 				for _, f := range oracles {
